@@ -49,7 +49,7 @@ inductive ErrKind where
   | io            -- reader ran out (EOF / short read)
   | tooLarge      -- length over the limit: ErrPayloadExceeds (FRAME_SIZE_ERROR, stream-typed Error)
   | goAway (code : Nat)   -- an Error value typed for GOAWAY
-  | other (code : Nat)    -- an Error value typed for RST_STREAM (ErrMissingBytes)
+  | other (code : Nat)    -- an Error value typed for RST_STREAM (ErrMissingBytes, wrong-size PRIORITY)
   | plain         -- not an Error value (padding out of range)
 deriving Repr, DecidableEq
 
@@ -104,9 +104,9 @@ def deserialize (typ flags : Nat) (p : Bytes) : Body ⊕ ErrKind :=
                     (some (be32 q % 2 ^ 31, q.getD 4 0)) (q.drop 5))
       else .inl (.headers (hasFlag flags Gen.c_FlagEndStream) (hasFlag flags Gen.c_FlagEndHeaders) none q)
   else if typ = Gen.c_FramePriority then
-    if p.length < 5 then .inr (.other Gen.c_ProtocolError) else .inl (.priority (be32 p % 2 ^ 31) (p.getD 4 0))
+    if p.length ≠ 5 then .inr (.other Gen.c_FrameSizeError) else .inl (.priority (be32 p % 2 ^ 31) (p.getD 4 0))
   else if typ = Gen.c_FrameResetStream then
-    if p.length < 4 then .inr (.other Gen.c_ProtocolError) else .inl (.rstStream (be32 p))
+    if p.length ≠ 4 then .inr (.goAway Gen.c_FrameSizeError) else .inl (.rstStream (be32 p))
   else if typ = Gen.c_FrameSettings then
     if p.length % 6 ≠ 0 then .inr (.goAway Gen.c_FrameSizeError)
     else
@@ -126,10 +126,10 @@ def deserialize (typ flags : Nat) (p : Bytes) : Body ⊕ ErrKind :=
   else if typ = Gen.c_FramePing then
     if p.length ≠ 8 then .inr (.goAway Gen.c_FrameSizeError) else .inl (.ping (hasFlag flags Gen.c_FlagAck) p)
   else if typ = Gen.c_FrameGoAway then
-    if p.length < 8 then .inr (.other Gen.c_ProtocolError)
-    else .inl (.goAway (be32 p) (be32 (p.drop 4)) (p.drop 8))
+    if p.length < 8 then .inr (.goAway Gen.c_FrameSizeError)
+    else .inl (.goAway (be32 p % 2 ^ 31) (be32 (p.drop 4)) (p.drop 8))
   else if typ = Gen.c_FrameWindowUpdate then
-    if p.length < 4 then .inr (.other Gen.c_ProtocolError) else .inl (.windowUpdate (be32 p % 2 ^ 31))
+    if p.length ≠ 4 then .inr (.goAway Gen.c_FrameSizeError) else .inl (.windowUpdate (be32 p % 2 ^ 31))
   else -- continuation
     .inl (.continuation (hasFlag flags Gen.c_FlagEndHeaders) p)
 
